@@ -1934,16 +1934,16 @@ class MySQLCompiler(
         self, binary: elements.BinaryExpression[Any], operator: Any, **kw: Any
     ) -> str:
         return "NOT (%s <=> %s)" % (
-            self.process(binary.left),
-            self.process(binary.right),
+            self.process(binary.left, **kw),
+            self.process(binary.right, **kw),
         )
 
     def visit_is_not_distinct_from_binary(
         self, binary: elements.BinaryExpression[Any], operator: Any, **kw: Any
     ) -> str:
         return "%s <=> %s" % (
-            self.process(binary.left),
-            self.process(binary.right),
+            self.process(binary.left, **kw),
+            self.process(binary.right, **kw),
         )
 
     def _mysql_regexp_match(
